@@ -12,6 +12,11 @@ if os.path.exists('/verif/work/seed_results.txt'):
     for l in open('/verif/work/seed_results.txt'):
         m=re.match(r'(C\d\d-\d): (.*)', l.strip())
         if m: det[m.group(1)]=m.group(2)
+rep={}
+if os.path.exists('/verif/seeded/replay_sweep.txt'):
+    for l in open('/verif/seeded/replay_sweep.txt'):
+        m=re.match(r'(C\d\d-\d): (.*)', l.strip())
+        if m: rep[m.group(1)]=m.group(2)
 override=json.load(open('/verif/scripts/seed_notes.json')) if os.path.exists('/verif/scripts/seed_notes.json') else {}
 for d in sorted(glob.glob('/verif/seeded/C*-*')):
     n=os.path.basename(d); prop=n.split('-')[0]
@@ -36,6 +41,8 @@ for d in sorted(glob.glob('/verif/seeded/C*-*')):
       },
       "apply": "git -C /repo apply /verif/seeded/%s/patch.diff" % n, "undo": "git -C /repo checkout -- .",
     }
+    if n in rep:
+        meta["what_i_ran"]["replay on the real code (same check with the replay driver on; confirmed = VIOLATION lines that carry a failing input instead of no-failing-input-found)"]=rep[n]
     if n in override: meta["note"]=override[n]
     json.dump(meta, open(d+'/meta.json','w'), indent=1)
 print("wrote", len(glob.glob('/verif/seeded/C*-*/meta.json')), "meta.json files")
